@@ -9,7 +9,7 @@ from ..runner import canon
 
 MODULE = "Props.C12"
 THEOREMS = ["C12_single_use_delivered_at_most_once", "C12_single_use_value_has_one_owner", "C12_raced_value_is_not_lost",
-            "C12_exactly_one_receiver", "C12_receiving_step_returns_the_value", "C12_receiver_nonvacuous",
+            "C12_exactly_one_receiver", "C12_receiving_step_returns_the_value", "C12_answered_request_runs_no_debug", "C12_receiver_nonvacuous",
             "C12_slot_request", "C12_sequential",
             "C12_repeat_use_never_single_use", "C12_builder_refuses_multi_use_of_non_clone",
             "C12_non_clone_stored_single_use", "C12_nonvacuous"]
@@ -233,6 +233,16 @@ def run(tier, seed):
                      "theorem_or_correspondence": "type-state correspondence: Model/Builder.v bstep/build_call vs rustc",
                      "program": R.describe(progs[k]), "model_says_well_typed": mv[k], "rustc_accepts": rv[k],
                      "case": {"program_index": k, "prog": progs[k]}, "disagreements": len(type_bad)})
+    # user code on the way of a value: a request that is answered runs none of the arguments' Debug impls (C12_answered_request_runs_no_debug);
+    # the harness method DB::db takes an argument whose Debug impl counts its runs
+    from ..trace_part import TracePart
+    tn, tpayload, tcov = TracePart("C12", n_quick=120, n_thorough=1200)(rng, tier, seed, [])
+    cov.update(tcov)
+    cov["obligations"] += 1
+    cov["evaluations"] += tn
+    if tpayload is not None:
+        return fail(tpayload)
+    cov["discharged"] += 1
     C.write_evidence("C12", tier, seed, cov, time.time() - t0, 0,
                      assumptions=["model/implementation agreement on the generated programs, schedules and histories only"])
     print(f"C12: {len(obligations)} theorems closed; {len(races)} scheduled races, {len(hist)} histories, {n_comp} composite requests, {len(progs)} builder programs agree ({time.time()-t0:.1f}s)")
@@ -260,6 +270,9 @@ def replay_composite(prop, payload, path, crate):
 
 def replay(path):
     payload = json.load(open(path))
+    if payload.get("part") == "trace":
+        from ..trace_part import replay_trace
+        return replay_trace("C12", payload, path)
     part = payload.get("part")
     if part == "history":
         heng = Engine("C12", project=proj_kinds); heng.build()
